@@ -20,7 +20,18 @@ pub struct MiriReport {
     pub extra: J,
 }
 
+/// The simulator's source directory: where this binary was built from
+/// (<sim>/target/<profile>/simw), else <root>/sim.
 fn sim_dir(root: &Path) -> std::path::PathBuf {
+    if let Ok(exe) = std::env::current_exe() {
+        let mut p = exe.as_path();
+        for _ in 0..3 {
+            p = p.parent().unwrap_or(Path::new("/"));
+        }
+        if p.join("Cargo.toml").exists() && p.join("src/miri.rs").exists() {
+            return p.to_path_buf();
+        }
+    }
     root.join("sim")
 }
 
@@ -119,6 +130,15 @@ fn write_miri_violation(root: &Path, world: &'static dyn World, seed: u64, idx: 
 
 /// C13: the plain-threads workload, 64 Miri seeds per workload seed.
 pub fn miri_threads(root: &Path, seed: u64, workloads: u64, procs: u64, report: &mut MiriReport) {
+    miri_plain(root, seed, workloads, procs, report, "miri-threads", "C13")
+}
+
+/// C10: plain threads creating and releasing arena chunks concurrently.
+pub fn miri_chunks(root: &Path, seed: u64, workloads: u64, procs: u64, report: &mut MiriReport) {
+    miri_plain(root, seed, workloads, procs, report, "miri-chunks", "C10")
+}
+
+fn miri_plain(root: &Path, seed: u64, workloads: u64, procs: u64, report: &mut MiriReport, cmd: &str, prop: &str) {
     let start = std::time::Instant::now();
     let mut executions = 0u64;
     let mut next = 0u64;
@@ -129,7 +149,7 @@ pub fn miri_threads(root: &Path, seed: u64, workloads: u64, procs: u64, report: 
                 break;
             }
             let w = crate::prng::mix(&[seed, 0x3171, next]) >> 1;
-            children.push((w, miri_cmd(root, MIRI_FLAGS_T, &["miri-threads".into(), w.to_string()]).spawn().expect("harness: cannot spawn cargo miri")));
+            children.push((w, miri_cmd(root, MIRI_FLAGS_T, &[cmd.into(), w.to_string()]).spawn().expect("harness: cannot spawn cargo miri")));
             next += 1;
         }
         for (w, child) in children {
@@ -138,26 +158,26 @@ pub fn miri_threads(root: &Path, seed: u64, workloads: u64, procs: u64, report: 
             let stderr = String::from_utf8_lossy(&out.stderr).to_string();
             let done = stdout.lines().filter(|l| l.starts_with("DONE")).count() as u64;
             executions += done;
-            let found: Vec<&str> = stdout.lines().filter(|l| l.starts_with("FOUND C13")).collect();
+            let found: Vec<&str> = stdout.lines().filter(|l| l.starts_with("FOUND ")).collect();
             let ub: Vec<&str> = stderr.lines().filter(|l| l.contains("Undefined Behavior") || l.contains("data race")).take(3).collect();
             if !found.is_empty() || !ub.is_empty() || !out.status.success() {
                 let why = if !found.is_empty() { found[0].to_string() } else if !ub.is_empty() { ub.join(" | ") } else { format!("miri exited with {:?}", out.status) };
-                let path = root.join("replays").join(format!("C13-{}-miri-threads-{}.json", seed, w));
+                let path = root.join("replays").join(format!("{}-{}-{}-{}.json", prop, seed, cmd, w));
                 let j = J::obj()
-                    .with("replay_with", J::str("miri-threads"))
+                    .with("replay_with", J::str(cmd))
                     .with("workload_seed", J::u(w))
                     .with("miriflags", J::str(MIRI_FLAGS_T))
-                    .with("expected", J::obj().with("property", J::str("C13")).with("invariant", J::str("C13.miri_plain_threads")).with("detail", J::str(&why)));
+                    .with("expected", J::obj().with("property", J::str(prop)).with("invariant", J::str(&format!("{}.miri_plain_threads", prop))).with("detail", J::str(&why)));
                 let _ = std::fs::create_dir_all(root.join("replays"));
                 std::fs::write(&path, j.pretty()).expect("harness: cannot write replay");
                 report.lines.push(format!("  [miri] plain threads, workload seed {}: {}", w, why));
-                report.lines.push(format!("VIOLATION property=C13 replay={}", path.display()));
+                report.lines.push(format!("VIOLATION property={} replay={}", prop, path.display()));
                 report.violations += 1;
             }
         }
     }
     report.extra.set(
-        "miri_plain_threads",
+        if prop == "C13" { "miri_plain_threads" } else { "miri_plain_chunk_threads" },
         J::obj()
             .with("workloads", J::u(workloads))
             .with("executions", J::u(executions))
@@ -179,6 +199,7 @@ pub fn run_for(prop: &str, root: &Path, seed: u64, scale: f64) -> Result<MiriRep
             miri_p_world(root, crate::world_by_name("stream"), seed, n(100), 16, &mut report);
         }
         "C13" => miri_threads(root, seed, n(64), 8, &mut report),
+        "C10" => miri_chunks(root, seed, n(48), 8, &mut report),
         _ => {}
     }
     Ok(report)
@@ -200,16 +221,16 @@ pub fn replay(root: &Path, path: &str, j: &J) -> i32 {
             }
             if out.status.success() { 0 } else { 1 }
         }
-        Some("miri-threads") => {
+        Some(cmd @ ("miri-threads" | "miri-chunks")) => {
             let w = j.get("workload_seed").and_then(|x| x.as_u64()).unwrap_or(0);
-            let out = miri_cmd(root, MIRI_FLAGS_T, &["miri-threads".into(), w.to_string()]).output().expect("harness: cargo miri");
+            let out = miri_cmd(root, MIRI_FLAGS_T, &[cmd.to_string(), w.to_string()]).output().expect("harness: cargo miri");
             let stdout = String::from_utf8_lossy(&out.stdout);
             let found = stdout.lines().any(|l| l.starts_with("FOUND"));
             for l in stdout.lines().filter(|l| l.starts_with("FOUND")).take(5) {
                 println!("  {}", l);
             }
             if found || !out.status.success() {
-                println!("VIOLATION property=C13 replay={}", path);
+                println!("VIOLATION property={} replay={}", if cmd == "miri-chunks" { "C10" } else { "C13" }, path);
                 1
             } else {
                 println!("no violation");
